@@ -2011,6 +2011,121 @@ func blockSplitCase(c *core.Ctx, r *rand.Rand, k int) {
 	}
 }
 
+// bucket framing (round 12): the stored values of a bucket are frames `[u32 size][trie image]` one after the
+// other. frameDigests cuts the values the way TrieBucket.Unmarshal does and digests every frame.
+func byteDigest(bs []byte) uint64 {
+	h := uint64(7)
+	for _, b := range bs {
+		h = (h*31 + uint64(b) + 1) % 1000000007
+	}
+	return h
+}
+
+func frameDigests(values [][]byte) (ds []int, ok bool) {
+	for _, v := range values {
+		for len(v) > 0 {
+			if len(v) < 4 {
+				return ds, false
+			}
+			end := 4 + int(binary.LittleEndian.Uint32(v[:4]))
+			if end > len(v) {
+				return ds, false
+			}
+			ds = append(ds, int(byteDigest(v[:end])))
+			v = v[end:]
+		}
+	}
+	return ds, true
+}
+
+// bucketUnmarshalOutcome runs TrieBucket.Unmarshal on a fresh object over bytes with cap = len.
+func bucketUnmarshalOutcome(value []byte) (line string) {
+	defer func() {
+		if p := recover(); p != nil {
+			line = "rejected"
+		}
+	}()
+	buf := make([]byte, len(value))
+	copy(buf, value)
+	b := model.NewTrieBucket()
+	if err := b.Unmarshal(buf[:len(buf):len(buf)]); err != nil {
+		return "rejected"
+	}
+	ds, ok := frameDigests([][]byte{buf})
+	if !ok {
+		return "accepted-unframed"
+	}
+	return fmt.Sprintf("ok n=%d d=%s", len(ds), showInts(ds))
+}
+
+// bucketFraming: `bframes` (count + digests of the frames, model-diffed; oracle: frames == tries loaded,
+// keys in the frames == keys of the union) and, on small buckets, damaged framings through `bumal`.
+func bucketFraming(c *core.Ctx, r *rand.Rand, tag string, values [][]byte, want int) {
+	ds, ok := frameDigests(values)
+	if !ok {
+		c.Fail("bucket-framing-broken", fmt.Sprintf("[%s] the written value is not a sequence of [u32 size][image] frames", tag))
+		return
+	}
+	sorted := append([]int{}, ds...)
+	sort.Ints(sorted)
+	c.Op("bframes", fmt.Sprintf("ok n=%d d=%s", len(ds), showInts(sorted)))
+	total := 0
+	for _, x := range blockSizes(values) {
+		total += x
+	}
+	if total != want {
+		c.Fail("bucket-framing-key-count", fmt.Sprintf("[%s] the frames hold %d keys, the union has %d", tag, total, want))
+	}
+	c.Branch("bucket-framing-checked")
+	size := 0
+	for _, v := range values {
+		size += len(v)
+	}
+	if size == 0 || size > 1500 || r.Intn(3) != 0 {
+		return
+	}
+	// damaged framings of the concatenated value
+	var value []byte
+	for _, v := range values {
+		value = append(value, v...)
+	}
+	first := 4 + int(binary.LittleEndian.Uint32(value[:4]))
+	variants := [][]byte{
+		value[:first],           // cut at a frame boundary: a shorter bucket
+		value[:first-1],         // inside the first image
+		value[:len(value)-1],    // last byte missing
+		value[:2],               // inside a size word
+		append(clone(value), 9), // one stray byte after the last frame
+	}
+	if first+2 <= len(value) {
+		variants = append(variants, value[:first+2]) // inside the second size word
+	}
+	for _, d := range []int{1, -1, 7, 1 << 20} {
+		v := clone(value)
+		binary.LittleEndian.PutUint32(v[:4], uint32(int(binary.LittleEndian.Uint32(v[:4]))+d))
+		variants = append(variants, v)
+	}
+	for _, x := range []uint32{0, 3, 0xfffffffc, 0xfffffffe, 0xffffffff} {
+		v := clone(value)
+		binary.LittleEndian.PutUint32(v[:4], x)
+		variants = append(variants, v)
+	}
+	for i := 0; i < 3; i++ {
+		v := clone(value)
+		v[r.Intn(len(v))] = byte(r.Intn(256))
+		variants = append(variants, v)
+	}
+	for _, v := range variants {
+		line := bucketUnmarshalOutcome(v)
+		c.Op("bumal "+hx(v), line)
+		if strings.HasPrefix(line, "ok") {
+			c.Branch("bucket-framing-damaged-accepted")
+		} else {
+			c.Branch("bucket-framing-damaged-rejected")
+		}
+	}
+}
+
 // fullTrieMergeCase (thorough tier): the block size the index merger really works with
 // (math.MaxUint16): one flush of more than 65535 keys (=> one full trie + a remainder) and two or
 // three small flushes, merged through index/v1's merger.
@@ -2125,6 +2240,7 @@ func runBucket(c *core.Ctx, r *rand.Rand, blockSize int, keys [][]byte, vals []u
 		c.Branch("bucket-via-index-model")
 	}
 	c.Op("bsizes", showInts(blockSizes(store[bucketID])))
+	bucketFraming(c, r, "flushed", store[bucketID], len(all))
 	probes := genProbes(r, keys, nprobes)
 	s := newBucketSubject(c, bucket, all, "flushed", store[bucketID])
 	s.queries(r, probes)
@@ -2177,6 +2293,7 @@ func runBucket(c *core.Ctx, r *rand.Rand, blockSize int, keys [][]byte, vals []u
 		return
 	}
 	c.Op("bsizes", showInts(blockSizes(out)))
+	bucketFraming(c, r, "merged", out, len(all))
 	s2 := newBucketSubject(c, merged, all, "merged", out)
 	s2.queries(r, probes)
 	c.Branch("bucket-merged")
